@@ -66,6 +66,7 @@ func (c *SubscriptionManager) AddSubscription(remoteDevice api.DeviceRemoteInter
 	}
 
 	c.subscriptionEntries = append(c.subscriptionEntries, subscriptionEntry)
+	verifPoint("AddSubscription.inserted", subscriptionEntry.Id)
 
 	payload := api.EventPayload{
 		Ski:          remoteDevice.Ski(),
